@@ -32,6 +32,7 @@ type Table struct {
 	Cols           []string
 	Types          []octosql.Type
 	Rows           [][]octosql.Value
+	TimeFieldPlus1 int  // 0: no implicit event time field; k+1: column k is the schema's TimeField
 	AcceptPushdown bool // false: rejects predicate push-down like every in-tree file source
 	Pushed         int  // number of predicates pushed down at materialisation (observed)
 }
@@ -130,7 +131,7 @@ func Env(tables []*Table) physical.Environment {
 							for i := range fields {
 								fields[i] = physical.SchemaField{Name: t.Cols[i], Type: t.Types[i]}
 							}
-							return &tableImpl{t: t}, physical.NewSchema(fields, -1, physical.WithNoRetractions(true)), nil
+							return &tableImpl{t: t}, physical.NewSchema(fields, t.TimeFieldPlus1-1, physical.WithNoRetractions(true)), nil
 						}
 					}
 					return nil, physical.Schema{}, fmt.Errorf("no such symbolic table %s", name)
